@@ -1,5 +1,6 @@
 // The translated segments of cache/cache.go (Gen/CacheSrc.v, made by harness/go2coq on every
-// run and extracted next to the model) are RUN against the implementation: a test of the
+// run and extracted to a file of their own, Extract/CacheSrcExtract.v; second model binary
+// bin/model_cache_src built by ocaml/build_src.sh) are RUN against the implementation: a test of the
 // translator, of its semantic library (Lib/GoSem*.v) and of the library denotations of
 // Cache/SrcLib.v, on the raw entries this runner generates anyway.
 //
@@ -21,7 +22,7 @@ import (
 	"verif/harness/common"
 )
 
-func srcParseCase(dir string, c *cache.Cache, m *mdl, res *common.Result, raw []byte, tag string) {
+func srcParseCase(dir string, c *cache.Cache, m *common.Model, res *common.Result, raw []byte, tag string) {
 	id := ids[0]
 	name := hex.EncodeToString(id[:])
 	p := filepath.Join(dir, name[:2], name+"-a")
@@ -36,7 +37,7 @@ func srcParseCase(dir string, c *cache.Cache, m *mdl, res *common.Result, raw []
 		}
 		return "F " + showEntry(e)
 	})
-	ans := canonModel(m.ask("srcparse "+common.Hex(raw)+" "+name), false)
+	ans := canonModel(m.Ask1("srcparse "+common.Hex(raw)+" "+name), false)
 	kind := "notfound"
 	if strings.HasPrefix(impl, "F ") {
 		kind = "found"
@@ -63,9 +64,22 @@ func srcParseCase(dir string, c *cache.Cache, m *mdl, res *common.Result, raw []
 	}
 }
 
-func runSrcSegments(f *common.Flags, res *common.Result, m *mdl) {
-	if probe := m.ask("srcname 2f74 0abc 61"); probe != "2f742f30612f306162632d61" {
-		res.Notes = append(res.Notes, "the model binary does not answer the src requests ("+trunc(probe)+"): the translated segments were not run")
+func runSrcSegments(f *common.Flags, res *common.Result, _ *mdl) {
+	// the translated segments live in a binary of their own, which ocaml/build_src.sh removes when
+	// the translated text no longer fits its driver: everything else has run by now
+	srcBin := f.Model + "_src"
+	if _, err := os.Stat(srcBin); err != nil {
+		res.Notes = append(res.Notes, "no "+filepath.Base(srcBin)+" (the translated segments of cache.go could not be extracted or no longer fit ocaml/cache/src_driver.ml): they were not run against the implementation")
+		return
+	}
+	m, err := common.StartModel(srcBin)
+	if err != nil {
+		res.Notes = append(res.Notes, "cannot start "+filepath.Base(srcBin)+": "+err.Error())
+		return
+	}
+	defer m.Close()
+	if probe := m.Ask1("srcname 2f74 0abc 61"); probe != "2f742f30612f306162632d61" {
+		res.Notes = append(res.Notes, filepath.Base(srcBin)+" does not answer the src requests ("+trunc(probe)+"): the translated segments were not run")
 		return
 	}
 	dir, err := os.MkdirTemp(f.Work, "c05src")
@@ -112,7 +126,7 @@ func runSrcSegments(f *common.Flags, res *common.Result, m *mdl) {
 		if err != nil || !ok {
 			continue
 		}
-		got := m.ask(fmt.Sprintf("srcentry %s %s %d %d", idhex, outhex, size, tm))
+		got := m.Ask1(fmt.Sprintf("srcentry %s %s %d %d", idhex, outhex, size, tm))
 		res.Count("srcseg:entry")
 		res.Case("srcentry:"+idhex+outhex, true)
 		if got != common.Hex(b) {
@@ -122,7 +136,7 @@ func runSrcSegments(f *common.Flags, res *common.Result, m *mdl) {
 				Detail: "the translated fmt.Sprintf of putIndexEntry and the index file written by Put differ"})
 		}
 		for _, q := range []struct{ key, idhex, want string }{{"a", idhex, wantA}, {"d", outhex, c.OutputFile(out)}} {
-			got := m.ask("srcname " + common.Hex([]byte(dir)) + " " + q.idhex + " " + common.Hex([]byte(q.key)))
+			got := m.Ask1("srcname " + common.Hex([]byte(dir)) + " " + q.idhex + " " + common.Hex([]byte(q.key)))
 			res.Count("srcseg:name")
 			res.Case("srcname:"+q.idhex+q.key, true)
 			_, serr := os.Stat(string(common.UnHex(got)))
